@@ -302,9 +302,13 @@ func boundaryCases() []caseJ {
 			add("return-only", ph(true, false, "start"), ph(true, false, "ret"), settle)
 		}
 		// the service's own return caused by Close, many times (the historic lost-stop race)
-		for y := 0; y < 4; y++ {
+		reps := 4
+		if k == "once" {
+			reps = 40 // service.Close waits for Start to return: its nil result and Close's own signal race for the watcher
+		}
+		for y := 0; y < reps; y++ {
 			p := ph(true, false, "call")
-			p.Yields = y
+			p.Yields = y % 4
 			add("close-while-running", ph(true, false, "start"), p, settle)
 		}
 	}
@@ -472,12 +476,17 @@ func runPlCase(t *testing.T, c plCase) *plObs {
 		o.InRun = int(nd.Run.inRun.Load())
 		var ret atomic.Bool
 		var cerr atomic.Value
-		go func() {
+		doClose := func() {
 			if err := nd.Plugin.Close(); err != nil {
 				cerr.Store(err.Error())
 			}
 			ret.Store(true)
-		}()
+		}
+		if c.OneP {
+			doClose() // on one P, without yielding: before any goroutine of startServices has run
+		} else {
+			go doClose()
+		}
 		synctest.Wait()
 		time.Sleep(30 * time.Second) // in-flight pipeline runs and tick goroutines finish
 		synctest.Wait()
@@ -696,9 +705,9 @@ func TestC18(t *testing.T) {
 	var keys []string
 	dist := map[string]int{}
 	evals := 0
-	reps := 1
+	reps := 3
 	if EnvTier() == "thorough" {
-		reps = 5
+		reps = 10
 	}
 	for rep := 0; rep < reps; rep++ {
 		for _, c := range plCases() {
@@ -733,6 +742,19 @@ func TestC18(t *testing.T) {
 			if site == "pipeline" && at == 3 {
 				samples = append(samples, o)
 			}
+		}
+	}
+	for _, o := range v2Cases(t, func(env []string, test string) (string, error) {
+		cmd := exec.Command(os.Args[0], "-test.run", test, "-test.v")
+		cmd.Env = append(os.Environ(), env...)
+		out, err := cmd.CombinedOutput()
+		return string(out), err
+	}) {
+		evals++
+		keys = append(keys, o.Name)
+		dist["v2: "+strings.SplitN(o.Verdict, ":", 2)[0]]++
+		if o.Verdict != "ok" {
+			violations = append(violations, o)
 		}
 	}
 	if violations == nil {
